@@ -16,17 +16,40 @@ def hfn(name, root=None):
 def r_cache_key(rule, root=None):
     fn = hfn("simplify", root)
     t = txt(fn["body"])
-    ifs = [i for i in A.find(fn["body"], "If") if "neighbor" in txt(i["cond"]) and "trace" in txt(i["cond"]) and A.strip(i["cond"]).get("k") == "Binary"]
-    if len(ifs) != 1:
+    # the cached child is torn down (`self.next.take()` + recycle) exactly when a child is cached and its stored
+    # trace differs from the new one - whether written as if-let + if, or as a guarded match arm
+    takes = [c for c in A.find(fn["body"], "MethodCall") if c["method"] == "take" and str(txt(c["recv"])) == "self.next"]
+    if len(takes) != 1:
         rule.lost("the `if &neighbor.0 != trace` comparison in RenderHandle::simplify")
     else:
-        c = A.strip(ifs[0]["cond"])
-        th = txt(ifs[0]["then"])
-        el = txt(ifs[0]["else"]) if ifs[0].get("else") else ""
-        if c["op"] == "!=" and txt(c["left"]) == "&neighbor.0" and txt(c["right"]) == "trace" and "self.next.take().unwrap()" in th and "neighbor.recycle(shape_storage,tape_storage)" in th and el == "{None}":
-            rule.ok("a cached child is dropped (and recycled) exactly when its stored trace differs from the new trace; otherwise it is reused", file=RM, line=ifs[0]["ln"])
+        tk = takes[0]
+        pats = [(p, scr) for p, scr in (A.enclosing_patterns(fn["body"], tk) or []) if str(txt(scr)) in ("&self.next", "self.next.as_ref()", "self.next")]
+        stored = set()
+        for p, _scr in pats:
+            segs, subs = A.pat_variant(p) if p.get("k") == "PTupleStruct" else (None, None)
+            if segs and segs[-1] == "Some" and subs:
+                inner = subs[0]
+                if A.binding_name(inner):
+                    n_ = A.binding_name(inner)
+                    stored |= {"&%s.0" % n_, "%s.0" % n_}
+                elif inner.get("k") == "PTuple" and inner["elems"] and A.binding_name(inner["elems"][0]):
+                    stored |= {A.binding_name(inner["elems"][0]), "&" + A.binding_name(inner["elems"][0]), "*" + A.binding_name(inner["elems"][0])}
+        conds = [A.norm_cond(c) for c in (A.enclosing_conds(fn["body"], tk) or [])]
+        cmp_ = []
+        for c in conds:
+            for a_ in stored:
+                if c in ("%s!=trace" % a_, "trace!=%s" % a_, "!%s==trace" % a_, "!trace==%s" % a_):
+                    cmp_.append(c)
+        blk = None
+        for b in A.find(fn["body"], "Block"):
+            if any(n is tk for n in A.walk(b)) and (blk is None or b["ln"] >= blk["ln"]):
+                blk = b
+        th = txt(blk) if blk is not None else ""
+        others = [c for c in conds if c not in cmp_ and not c.startswith("match") and "Some(" not in c]
+        if stored and cmp_ and not others and th.fmatch("$N.recycle(shape_storage,tape_storage)") is not None:
+            rule.ok("a cached child is dropped (and recycled) exactly when its stored trace differs from the new trace; otherwise it is reused", file=RM, line=tk["ln"])
         else:
-            rule.bad("cache|compare", "the cached simplification must be discarded iff `&neighbor.0 != trace` (found `%s`): reusing a child built for another trace evaluates the wrong tape" % txt(c), A.where(fn, ifs[0]))
+            rule.bad("cache|compare", "the cached simplification must be discarded iff `&neighbor.0 != trace` (found conditions %s): reusing a child built for another trace evaluates the wrong tape" % conds, A.where(fn, tk))
     need = [
         ("a new child is simplified from this handle's shape with the current trace", "letnext=self.shape.simplify(trace,s,workspace).unwrap();"),
         ("the stored key is a copy of the current trace", "ifletSome(t)=trace_storage.as_mut(){t.copy_from(trace);}else{trace_storage=Some(trace.clone());}"),
